@@ -785,7 +785,7 @@ func (e *Exec) applyContract(st *State, call *ast.CallExpr, fi *FuncInfo, ct *Co
 		envPost := e.contractEnv(fi, recv, args, st, pre)
 		e.bindResults(envPost, fi, res)
 		for _, en := range ct.Ensures {
-			e.assumeTagged(st, e.specBool(st, en, envPost), en.Tag)
+			e.assumeClause(st, en, envPost)
 		}
 	}()
 	if ct.Trusted != "" {
@@ -1072,7 +1072,7 @@ func (e *Exec) applyIfaceContract(st *State, call *ast.CallExpr, fn *types.Func,
 			envPost.vars["res"] = res[0]
 		}
 		for _, en := range ct.Ensures {
-			e.assumeTagged(st, e.specBool(st, en, envPost), en.Tag)
+			e.assumeClause(st, en, envPost)
 		}
 	}()
 	return out
